@@ -2,6 +2,7 @@ import Firebolt.Properties.ExecFlow
 import Firebolt.Spec.ExecTrace
 import Firebolt.Generated.Skeleton
 import Firebolt.Expected.Skeleton
+import Firebolt.Properties.ExecNet
 /-!
 # C01 — Event flow conservation through the node tree
 
@@ -118,5 +119,36 @@ open Firebolt.Exec in
 theorem offered_is_produced_any_schedule (c : Cfg) (caps : Nat → Nat) (disc : Nat → Bool) (as : List Act) (s : St)
     (hr : run c (init c caps disc) as = some s) (ht : Terminal c s) (k : Nat) : (s.offered k).Perm (s.produced k) :=
   terminal_offered c s (reachable_all c caps disc as s hr) ht k
+
+
+/-! ### the whole tree, every global schedule (product model `Model/ExecNet.lean`) -/
+open Firebolt.Exec in
+/-- **C01 for the whole tree**: in a tree without discarding nodes, at global quiescence of any global schedule, every node
+at any depth has received — as a multiset — exactly what the denotational model computes from the source's stream -/
+theorem tree_flow_any_global_schedule (cfg : Path → Cfg) (caps : Path → Nat) (disc : Path → Bool) (sched : List (Path × Act)) (N : Net)
+    (hr : grun (ginit cfg caps disc) sched = some N) (hd : ∀ p, disc p = false)
+    (hT : ∀ p, inTree cfg p → Terminal (cfg p) (N.st p)) (p : Path) (hp : inTree cfg p) :
+    (N.st p).recvd.Perm (offer cfg (N.st []).upSent p) := tree_flow_nodiscard cfg caps disc sched N hr hd hT p hp
+
+open Firebolt.Exec in
+/-- **C01 on every edge, relative form, any discard setting**: child's receipts plus the counted drops at its full buffer
+are exactly the results of what the parent received -/
+theorem tree_edge_any_global_schedule (cfg : Path → Cfg) (caps : Path → Nat) (disc : Path → Bool) (sched : List (Path × Act)) (N : Net)
+    (hr : grun (ginit cfg caps disc) sched = some N) (p : Path) (k : Nat) (hk : k < (cfg p).nChildren)
+    (htp : Terminal (cfg p) (N.st p)) (htk : Terminal (cfg (k :: p)) (N.st (k :: p))) :
+    ((N.st (k :: p)).recvd ++ (N.st p).dropped k).Perm ((N.st p).recvd.flatMap (results (cfg p))) := by
+  obtain ⟨hG, hcfg, _⟩ := reachable_ginv cfg caps disc sched N hr
+  subst hcfg
+  exact (tree_edge N hG p k hk htp htk).1
+
+open Firebolt.Exec in
+/-- the two copies of every channel of the tree agree in every reachable global state -/
+theorem tree_channels_agree (cfg : Path → Cfg) (caps : Path → Nat) (disc : Path → Bool) (sched : List (Path × Act)) (N : Net)
+    (hr : grun (ginit cfg caps disc) sched = some N) (p : Path) (k : Nat) (hk : k < (cfg p).K) :
+    (N.st (k :: p)).inp = ((N.st p).outs k).buf ∧ (N.st (k :: p)).inpClosed = ((N.st p).outs k).closed ∧
+    (N.st (k :: p)).upSent = (N.st p).enq k := by
+  obtain ⟨hG, hcfg, _⟩ := reachable_ginv cfg caps disc sched N hr
+  subst hcfg
+  exact link_fields N hG.link p k hk
 
 end Firebolt.C01
